@@ -737,9 +737,6 @@ Qed.
 
 (** a read for type [u] while some in-flight segment has no files for [u] *)
 Definition ReadDuringFlushDropsSegmentFlow (s : shard) (u : N) : bool := fragile s u.
-(** memory holds a row of another type *)
-Definition CountIgnoresTypeInMemory (s : shard) (u : N) : bool :=
-  negb (forallb (fun e => euid e =? u) (mem_rows s)).
 (** some row is both in memory (a passive copy) and in a scanned segment *)
 Definition CountDuringFlush (s : shard) : bool :=
   existsb (fun e => existsb (ev_eqb e) (seg_rows s)) (mem_rows s).
@@ -767,22 +764,26 @@ Proof.
   intros r [<-|[]]. apply select_exact; assumption.
 Qed.
 
+(** COUNT filters the in-memory rows by event type like the segment rows (fix dc170f4; [count] reads the
+    regenerated flag, so this stops checking if the memtable read paths lose the condition again). *)
+Lemma count_typed : forall s u, count s u = len (of_uid u (mem_rows s)) + len (of_uid u (seg_rows s)).
+Proof. reflexivity. Qed.
+
 Theorem count_exact_outside_known : forall c ls u,
   no_crash ls -> NoDup (map ek (applied ls)) ->
   let s := run (init c) ls in
-  CountIgnoresTypeInMemory s u = false -> CountDuringFlush s = false ->
+  CountDuringFlush s = false ->
   count s u = len (select s u).
 Proof.
-  intros c ls u Hc Hk s H1 H2. pose proof (inv_run c ls Hc Hk) as I. fold s in I.
+  intros c ls u Hc Hk s H2. pose proof (inv_run c ls Hc Hk) as I. fold s in I.
   pose proof (inv_rows _ _ I) as Hrows. destruct (inv_nodup_rows _ _ I) as [Nm Ns].
-  unfold CountIgnoresTypeInMemory in H1. apply negb_false_iff in H1.
   rewrite CountDuringFlush_false in H2.
-  assert (Hscan : scan s u = mem_rows s ++ of_uid u (seg_rows s)).
-  { unfold scan, of_uid. rewrite filter_app, (filter_all _ _ H1). reflexivity. }
+  assert (Hscan : scan s u = of_uid u (mem_rows s) ++ of_uid u (seg_rows s)).
+  { unfold scan, of_uid. rewrite filter_app. reflexivity. }
   assert (Hsel : select s u = scan s u).
   { unfold select. apply dedup_id; [|reflexivity]. apply nodup_map_inj.
-    - rewrite Hscan. apply nodup_app. split; [exact Nm|]. split; [apply NoDup_filter, Ns|].
-      intros x Hx Hx2. apply filter_In in Hx2 as [Hx2 _]. exact (H2 x Hx Hx2).
+    - rewrite Hscan. apply nodup_app. split; [apply NoDup_filter, Nm|]. split; [apply NoDup_filter, Ns|].
+      intros x Hx Hx2. apply filter_In in Hx as [Hx _]. apply filter_In in Hx2 as [Hx2 _]. exact (H2 x Hx Hx2).
     - intros a b Ha Hb. unfold scan, of_uid in Ha, Hb. apply filter_In in Ha as [Ha _], Hb as [Hb _].
       apply (nodup_map_inj_on ek (applied ls) Hk); apply Hrows; assumption. }
   rewrite Hsel, Hscan, len_app. reflexivity.
@@ -824,32 +825,33 @@ Proof.
   split; [vm_compute; auto|]. vm_compute. intros [].
 Qed.
 
-(** Known findings of COUNT.  (a) CountIgnoresTypeInMemory: the memtable holds one
-    event of type 1, COUNT for type 0 reports 1.  (b) CountDuringFlush: between
-    FwPublish and FwClear the rotated event is in the passive copy and in the
-    published segment and is counted twice. *)
+(** Known finding of COUNT, CountDuringFlush: between FwPublish and FwClear the rotated event is in the
+    passive copy and in the published segment and is counted twice.  (The former finding
+    CountIgnoresTypeInMemory - memory holds an event of another type - is repaired by dc170f4: on its
+    witness [ls_count_a] COUNT is now the selection, see [count_other_type_exact].) *)
 Definition ls_count_a : list label := [LStore (mkEv 0 0 1)].
 Definition ls_count_b : list label :=
   [LStore (mkEv 0 0 0); LFw FwBegin; LFw FwMkdir; LFw (FwWrite 0); LFw FwIndex; LFw FwPublish].
 
 Lemma count_refuted :
-  (exists c ls u, let s := run (init c) ls in
+  exists c ls u, let s := run (init c) ls in
      no_crash ls /\ NoDup (map ek (applied ls)) /\
-     CountIgnoresTypeInMemory s u = true /\ CountDuringFlush s = false /\
-     count s u <> len (select s u)) /\
-  (exists c ls u, let s := run (init c) ls in
-     no_crash ls /\ NoDup (map ek (applied ls)) /\
-     CountIgnoresTypeInMemory s u = false /\ CountDuringFlush s = true /\
+     CountDuringFlush s = true /\
      jobs s = [mkJob 0 (applied ls) StPublished] /\
-     count s u = 2 /\ len (select s u) = 1).
+     count s u = 2 /\ len (select s u) = 1.
 Proof.
-  split.
-  - exists 2, ls_count_a, 0. cbv zeta.
-    split; [vm_compute; reflexivity|]. split; [apply nodupb_sound; vm_compute; reflexivity|].
-    split; [vm_compute; reflexivity|]. split; [vm_compute; reflexivity|]. vm_compute. discriminate.
-  - exists 1, ls_count_b, 0. cbv zeta.
-    split; [vm_compute; reflexivity|]. split; [apply nodupb_sound; vm_compute; reflexivity|].
-    repeat split; vm_compute; reflexivity.
+  exists 1, ls_count_b, 0. cbv zeta.
+  split; [vm_compute; reflexivity|]. split; [apply nodupb_sound; vm_compute; reflexivity|].
+  repeat split; vm_compute; reflexivity.
+Qed.
+
+Example count_other_type_exact :
+  let s := run (init 2) ls_count_a in
+  no_crash ls_count_a /\ NoDup (map ek (applied ls_count_a)) /\ mem_rows s = [mkEv 0 0 1] /\
+  CountDuringFlush s = false /\ count s 0 = 0 /\ select s 0 = [] /\ count s 1 = 1.
+Proof.
+  cbv zeta. split; [vm_compute; reflexivity|]. split; [apply nodupb_sound; vm_compute; reflexivity|].
+  repeat split; vm_compute; reflexivity.
 Qed.
 
 (** Non-vacuity: a crash-free history with unique ids and three rotations
@@ -880,17 +882,17 @@ Proof.
   repeat split; vm_compute; reflexivity.
 Qed.
 
-(** three rotations (one of an empty memtable), every event of type 0: segment 0
+(** three rotations (one of an empty memtable), events of two types: segment 0
     complete and released, segments 1 and 2 queued, one event in the memtable *)
 Definition ls_ex_count : list label :=
-  [LStore (mkEv 0 1 0); LStore (mkEv 1 0 0)] ++ flush_all [0]
-  ++ [LStore (mkEv 2 0 0); LWalWrite; LStore (mkEv 3 1 0); LFlushCmd; LStore (mkEv 4 0 0)].
+  [LStore (mkEv 0 1 0); LStore (mkEv 1 0 1)] ++ flush_all [0; 1]
+  ++ [LStore (mkEv 2 0 0); LWalWrite; LStore (mkEv 3 1 1); LFlushCmd; LStore (mkEv 4 0 0)].
 
 Example count_exact_example :
   let s := run (init 2) ls_ex_count in
   no_crash ls_ex_count /\ NoDup (map ek (applied ls_ex_count)) /\
   map jstage (jobs s) = [StQueued; StQueued] /\ live s = [0] /\
-  CountIgnoresTypeInMemory s 0 = false /\ CountDuringFlush s = false /\ count s 0 = 5.
+  CountDuringFlush s = false /\ count s 0 = 3 /\ count s 1 = 2 /\ len (mem_rows s) = 3.
 Proof.
   cbv zeta. split; [vm_compute; reflexivity|]. split; [apply nodupb_sound; vm_compute; reflexivity|].
   repeat split; vm_compute; reflexivity.
